@@ -54,6 +54,9 @@ def cases(tier):
     # contract of DistributedShampoo.step the trajectory claim relies on (every group with gradients gets exactly one group step with its
     # own hyperparameters, groups without gradients are skipped and do not stop the loop): the C01 step/flags cases, re-discharged here
     cs += [f"step/flags/g{a}{b}n{c}{d}" for a in "01" for b in "01" for c in "01" for d in "01"]
+    # contract of precondition() the norm transfer relies on: it returns the direction WITHOUT writing the filtered gradient it is given (the
+    # grafted method's norm is computed from that same gradient afterwards) — also for blocks without any preconditioned dimension
+    cs += ["plist/shampoo/o1/ign0/int0", "plist/eig/o1/ign0/int0", "plist/shampoo/o2/ign-/int", "plist/eig/o2/ign-/int"]
     return cs
 
 
@@ -384,6 +387,9 @@ def run_case(case, tier, seed):
     if case.startswith("step/flags"):
         from checks import stepflags
         return stepflags.run(case, tier)
+    if case.startswith("plist/"):
+        from checks import plist
+        return plist.run_list_case(case, tier, PROP)
     if case.startswith("warmup/"):
         return _warmup_case(case)
     if case.startswith("norm_transfer/"):
@@ -471,10 +477,14 @@ def _native_norm(seed):
               adam=st.AdamGraftingConfig(beta2=0.9, epsilon=1e-8))[gname]
     shape = rng.choice([(4, 6), (5,), (3, 2, 2)])
     maxdim = rng.choice([2, 3, 1024])
+    # Shampoo or eigenvalue-corrected Shampoo, optionally with an ignored dimension (1-D blocks then have no preconditioned dimension at all)
+    soap = rng.random() < 0.4
+    ignored = rng.choice([[], [0]])
+    pcfg = (st.EigenvalueCorrectedShampooPreconditionerConfig if soap else st.ShampooPreconditionerConfig)(ignored_dims=ignored)
     lr = 0.1
     p = torch.nn.Parameter(torch.randn(shape, dtype=torch.float64))
     q = torch.nn.Parameter(p.detach().clone())
-    kw = dict(lr=lr, betas=(0.0, 1.0), epsilon=1e-6, max_preconditioner_dim=maxdim, precondition_frequency=1, preconditioner_dtype=torch.float64)
+    kw = dict(lr=lr, betas=(0.0, 1.0), epsilon=1e-6, max_preconditioner_dim=maxdim, precondition_frequency=1, preconditioner_dtype=torch.float64, preconditioner_config=pcfg)
     opt = DistributedShampoo([p], grafting_config=gc, start_preconditioning_step=1, **kw)
     gra = DistributedShampoo([q], grafting_config=gc, start_preconditioning_step=50, precondition_frequency=50,
                              **{k: v for k, v in kw.items() if k != "precondition_frequency"})
@@ -491,8 +501,8 @@ def _native_norm(seed):
         for j, (a0, a1, c0, c1) in enumerate(zip(before_p, after_p, before_q, after_q)):
             n_sh, n_gr = float((a1 - a0).norm()), float((c1 - c0).norm())
             if abs(n_sh - n_gr) > 2e-5 * max(1.0, n_gr):
-                return dict(graft=gname, shape=shape, maxdim=maxdim), f"step {t + 1} block {j}: ||Shampoo step|| = {n_sh:.6e} but grafted ||step|| = {n_gr:.6e}"
-    return dict(graft=gname, shape=shape, maxdim=maxdim), None
+                return dict(graft=gname, shape=shape, maxdim=maxdim, soap=soap, ignored_dims=ignored), f"step {t + 1} block {j}: ||Shampoo step|| = {n_sh:.6e} but grafted ||step|| = {n_gr:.6e}"
+    return dict(graft=gname, shape=shape, maxdim=maxdim, soap=soap, ignored_dims=ignored), None
 
 
 def _native_zero_block(seed):
@@ -559,6 +569,16 @@ def replay_file(doc):
     if rp.get("kind") == "norm_native":
         cfgd, bad = _native_norm(rp["seed"])
         return bool(bad), f"{cfgd}: {bad}"
+    if rp.get("kind") == "plist":
+        from checks import plist
+        ok, detail = plist.replay_plist(rp, (doc.get("verifier_output") or {}).get("model") or {})
+        if ok:
+            return ok, detail
+        for k in range(24):
+            cfgd, bad = _native_norm(7000 + k)
+            if bad:
+                return True, f"{cfgd}: {bad}"
+        return False, detail
     if rp.get("kind") == "stepflags":
         from checks import stepflags
         ok, detail = stepflags.replay_flags(rp, (doc.get("verifier_output") or {}).get("model") or {})
